@@ -80,6 +80,19 @@ def recordEFromJson (j : Json) : Except String RecordE := do
            entries := ← (← (← j.getObjVal? "e").getArr?).toList.mapM entryFromJson,
            tooltip := ← (← (← j.getObjVal? "tt").getArr?).toList.mapM (·.getStr?) }
 
+def metricEntryFromJson (j : Json) : Except String MetricEntry := do
+  let a ← j.getArr?
+  if a.size != 2 then throw "metric entry: want [tag, value]"
+  match (← a[0]!.getStr?) with
+  | "mean" => return .mean (← ratFromJson a[1]!)
+  | "samples" =>
+    let l ← (← a[1]!.getArr?).toList.mapM fun e => do
+      let p ← e.getArr?
+      if p.size != 2 then throw "sample: want [index, value]"
+      return (← p[0]!.getNat?, ← ratFromJson p[1]!)
+    return .samples l
+  | t => throw s!"metric entry: bad tag {t}"
+
 /-- request with "removeEmpties": bool — the option stream: records carry "e" and "tt" -/
 def handleOpt (j : Json) (b : Bool) : Except String Json := do
   let cells ← cellsFromJson (← j.getObjVal? "cells")
@@ -91,10 +104,30 @@ def handleOpt (j : Json) (b : Bool) : Except String Json := do
     | .ok v =>
       if v.isNull then pure Json.null
       else do
-        let recs ← (← v.getArr?).toList.mapM recordEFromJson
-        pure (((specJson tol cells (recs.map (·.base))).setObjVal! "summary_slots"
-          (Json.bool (recs.all (Spec.C20.entriesOk b)))).setObjVal! "tooltip_sources"
-          (Json.bool (recs.all Spec.C20.tooltipOk)))
+        let arr := (← v.getArr?).toList
+        let recs ← arr.mapM recordEFromJson
+        -- flat=True: "fk" = the raw `<metric>_<stat>` entries of the flat record in record order
+        let fks ← arr.mapM fun rj => match rj.getObjVal? "fk" with
+          | .ok f => (pairsFromJson SVal.fromJson f).map some
+          | .error _ => pure none
+        let flatOk := (recs.zip fks).all fun (r, fk) => match fk with
+          | some l => Spec.C20.flatOk r l
+          | none => true
+        -- "ks" = [[metric name, ["mean", q] | ["samples", [[i, x]…]]]…]: the `metric` entry of every summary
+        let keep : Bool := match j.getObjVal? "keepSamples" with
+          | .ok (Json.bool k) => k
+          | _ => false
+        let kss ← arr.mapM fun rj => match rj.getObjVal? "ks" with
+          | .ok f => (pairsFromJson metricEntryFromJson f).map some
+          | .error _ => pure none
+        let keptOk := recs.length != cells.length || ((cells.zip kss).all fun (c, ks) => match ks with
+          | some l => Spec.C20.keptOk tol keep cells c l
+          | none => true)
+        let s0 := specJson tol cells (recs.map (·.base))
+        let s1 := s0.setObjVal! "kept_metric_entries" (Json.bool keptOk)
+        let s2 := s1.setObjVal! "summary_slots" (Json.bool (recs.all (Spec.C20.entriesOk b)))
+        let s3 := s2.setObjVal! "tooltip_sources" (Json.bool (recs.all Spec.C20.tooltipOk))
+        pure (s3.setObjVal! "flat_keys" (Json.bool flatOk))
     | .error _ => pure Json.null
   return Json.mkObj [("model", Json.arr (model.map recordEToJson).toArray), ("spec", spec),
                      ("specModel", Json.bool (Spec.C20.holdsOpt b 0 cells model))]
@@ -115,7 +148,9 @@ def handle (j : Json) : Except String Json := do
         let recs ← (← v.getArr?).toList.mapM Record.fromJson
         pure (specJson tol cells recs)
     | .error _ => pure Json.null
+  -- "nSlices": the model's slice count (`Triangle.slices`), the number of facets a chart must have
   return Json.mkObj [("model", Json.arr (model.map Record.toJson).toArray), ("spec", spec),
-                     ("specModel", Json.bool (Spec.C20.holds 0 cells model))]
+                     ("specModel", Json.bool (Spec.C20.holds 0 cells model)),
+                     ("nSlices", ((Triangle.slices cells).length : Nat))]
 
 def main : IO Unit := serve handle
